@@ -9,6 +9,8 @@ Mirrors (after the `fix:` commit that moved the snapshot to `__enter__`):
               (`_dtype_value_context._set_value` skips `None` instance slots;
                `deterministic_probes._set_state` additionally resets `probe_vectors`)
   __exit__  : write the snapshot back (all three slots for per-dtype settings), ignoring exception info
+Session 5: class-level setters (`Event.set`), `is_default`, `value(dtype)`, composites (`enterAll` / `exitAll` / `enterFail`).
+The method bodies themselves are in `IR.lean` (translated from the source on every run) and are proved to refine `step`.
 -/
 namespace LinOp.C17
 
@@ -19,6 +21,21 @@ structure Slots where
   b : Val
   c : Val
   deriving DecidableEq, Repr
+
+/-- One of the three class attributes of a setting. -/
+inductive Slot | a | b | c
+  deriving DecidableEq, Repr
+
+def Slots.get (g : Slots) : Slot → Val
+  | .a => g.a
+  | .b => g.b
+  | .c => g.c
+
+def Slots.put (g : Slots) (i : Slot) (v : Val) : Slots :=
+  match i with
+  | .a => { g with a := v }
+  | .b => { g with b := v }
+  | .c => { g with c := v }
 
 /-- `flag r`: `_feature_flag` (slot a = `_state`; if `r`, slot b = `probe_vectors`, reset by `_set_state`);
     `value`: `_value_context` (slot a = `_global_value`);
@@ -41,6 +58,7 @@ inductive Event
   | enter (o : ObjId)
   | exit (o : ObjId) (exc : Bool)
   | poke (c : Nat) (v : Val)      -- external write to `probe_vectors` (slot b) of class c
+  | set (c : Nat) (v : Slots)     -- class-level `cls._set_state(v.a)` / `cls._set_value(v.a)` / `cls._set_value(v.a, v.b, v.c)`
   deriving Repr
 
 def Event.cls : Event → Nat
@@ -48,12 +66,14 @@ def Event.cls : Event → Nat
   | .enter o => o.1
   | .exit o _ => o.1
   | .poke c _ => c
+  | .set c _ => c
 
 def Event.obj? : Event → Option ObjId
   | .construct o _ => some o
   | .enter o => some o
   | .exit o _ => some o
   | .poke _ _ => none
+  | .set _ _ => none
 
 structure State where
   globals : Nat → Slots
@@ -98,6 +118,7 @@ def step (K : Nat → Kind) (s : State) : Event → State
       | none => s
       | some ob => { s with globals := upd s.globals o.1 (restore (K o.1) (s.globals o.1) ob.saved) }
   | .poke c v => { s with globals := upd s.globals c { s.globals c with b := v } }
+  | .set c v => { s with globals := upd s.globals c (setOnEnter (K c) (s.globals c) v) }
 
 def run (K : Nat → Kind) (s : State) (h : List Event) : State := h.foldl (step K) s
 
@@ -106,5 +127,27 @@ def flagOn (dflt : Bool) (g : Slots) : Bool :=
   match g.a with
   | none => dflt
   | some v => v != 0
+
+/-- `is_default()` of a feature flag. -/
+def isDefault (g : Slots) : Bool := g.a.isNone
+
+/-- `_dtype_value_context.value(dtype)`: 0 = torch.float, 1 = torch.double, 2 = torch.half; any other dtype
+raises `RuntimeError` (`none`).  A tensor argument is replaced by its dtype first. -/
+def dtypeValue (d : Nat) (g : Slots) : Option Val :=
+  match d with
+  | 0 => some g.a
+  | 1 => some g.b
+  | 2 => some g.c
+  | _ => none
+
+/-! ### Composite contexts (`fast_computations`, `linalg_dtypes`)
+A composite object owns one member context per part; `__enter__` / `__exit__` call the members' methods in
+source order (the members' `__exit__` is called without exception info).  There are no thread-locals and no
+try/finally in the composite: if the `j`-th member's `__enter__` raises, the first `j` members stay entered and
+`with` does not call `__exit__`. -/
+def enterAll (ps : List ObjId) : List Event := ps.map Event.enter
+def exitAll (ps : List ObjId) (exc : Bool) : List Event := ps.map (fun p => Event.exit p exc)
+/-- Composite `__enter__` in which member number `j` raises. -/
+def enterFail (ps : List ObjId) (j : Nat) : List Event := enterAll (ps.take j)
 
 end LinOp.C17
